@@ -26,7 +26,8 @@ RULE = ("Generator: surfaces <= 12 a side (float64/float32/int64; barrier value 
         "cells. Exhaustive families: (a) every blocked-cell layout x every ordered (start, goal) pair x both connectivities (snap off, plus "
         "snap switched on for every blocked end) on the listed grids, coordinate class cycled over 12 step/offset/direction/res/off-centre "
         "variants; (b) 'own coordinates': every (step, offset, direction) axis class x axis length {2,3,7,12} x every cell index x res "
-        "none/tuple/scalar, exact and 0.48-cell off-centre; (c) the only crossable cell in the corner opposite a blocked, snapped end. "
+        "none/tuple/scalar, exact and 0.48-cell off-centre; (c) the only crossable cell in the corner opposite a blocked, snapped end; (d) a 6x6 "
+        "(quick) / 8x8 (thorough) surface blocked except for two cells x every snapped blocked cell (nearest cell up to 7 cells away). "
         "Oracle: Dijkstra + chain validity (module docstring). Non-trivial: a route exists between the (possibly snapped) ends AND (the "
         "optimal route is longer than the obstacle-free distance [detour], or a coordinate step is fractional, or snapping moved an end "
         "point); distinct by SHA-1 of the case (random) or enumeration index (exhaustive).")
@@ -478,7 +479,9 @@ def astar_cases(draw, profile="mix"):
         size = draw(st.sampled_from(["tiny", "small", "small", "big", "big", "any"]))
         lo, hi = {"tiny": (1, 3), "small": (2, 6), "big": (7, 12), "any": (1, 12)}[size]
         h, w = draw(st.integers(lo, hi)), draw(st.integers(lo, hi))
-        kind = draw(st.sampled_from(["random", "random", "walls", "spiral"]))
+        kind = draw(st.sampled_from(["random", "random", "walls", "spiral", "islands"]))
+    if kind == "islands":
+        h, w = draw(st.integers(5, 12)), draw(st.integers(5, 12))
     if kind != "random" and min(h, w) < 3:
         kind = "random"
     dtype = draw(st.sampled_from(["float64", "float64", "float64", "float32", "int64"]))
@@ -502,7 +505,20 @@ def astar_cases(draw, profile="mix"):
         flat = [blk[(v + k) % len(blk)] if v >= 10 - dens else crs[(v + k) % len(crs)] for k, v in enumerate(flat_i)]
         data = [flat[i * w:(i + 1) * w] for i in range(h)]
     else:
-        if kind == "walls":
+        if kind == "islands":
+            # a surface blocked nearly everywhere: 1-3 short crossable corridors far apart, end points snapped over long distances
+            op = np.zeros((h, w), bool)
+            for _ in range(draw(st.integers(1, 3))):
+                (i0, j0), (i1, j1) = [(draw(st.integers(0, h - 1)), draw(st.integers(0, w - 1))) for _ in range(2)]
+                if draw(st.booleans()):
+                    i1, j1 = i0, j0                                   # a single cell
+                i1 = max(i0 - 2, min(i0 + 2, i1))
+                j1 = max(j0 - 2, min(j0 + 2, j1))
+                for i in range(min(i0, i1), max(i0, i1) + 1):
+                    op[i, j0] = True
+                for j in range(min(j0, j1), max(j0, j1) + 1):
+                    op[i1, j] = True
+        elif kind == "walls":
             by_rows = draw(st.booleans())
             n_w = max(1, (h if by_rows else w) // 2)
             if draw(st.booleans()):
@@ -525,14 +541,14 @@ def astar_cases(draw, profile="mix"):
                 op = op[:, ::-1].copy()
             elif tf == "T":
                 op = spiral_open(w, h)[0].T.copy()
-        flips = draw(st.lists(st.tuples(st.integers(0, h - 1), st.integers(0, w - 1)), max_size=2))
+        flips = draw(st.lists(st.tuples(st.integers(0, h - 1), st.integers(0, w - 1)), max_size=0 if kind == "islands" else 2))
         for (i, j) in flips:
             op[i, j] = not op[i, j]
         data = _tokens_from_mask(op, bset, is_f, draw(st.sampled_from(["first", "last", "mixed"])))
 
     crossable = [(i, j) for i in range(h) for j in range(w) if not _is_blocked_token(data[i][j], barriers)]
     blocked = [(i, j) for i in range(h) for j in range(w) if _is_blocked_token(data[i][j], barriers)]
-    snap_p = [False] * 7 + [True] if profile == "big" else [False, False, False, True]
+    snap_p = [False] * 7 + [True] if profile == "big" else [False, True, True, True] if kind == "islands" else [False, False, False, True]
     snap_s = draw(st.sampled_from(snap_p))
     snap_g = draw(st.sampled_from(snap_p))
 
@@ -649,6 +665,31 @@ def diag_cases():
                                "res": res, "s": list(s), "g": list(g), "conn": 8 if vi % 2 else 4, "snap_start": ss, "snap_goal": sg}
 
 
+def snap_two_cases(n, lo, hi):
+    """Snapping over long distances: an n x n surface that is blocked everywhere except two cells c1 < c2; start and goal both name the
+    blocked cell p and are both snapped, so the answer is the one-cell route on whichever of c1, c2 is nearer to p (either when tied).
+    Every (p, c1, c2) with p index in [lo, hi): the nearest cell is up to n-1 cells away in any direction, i.e. every ordering of an
+    axis-aligned against a diagonal candidate occurs."""
+    cells = [(i, j) for i in range(n) for j in range(n)]
+    for pi in range(lo, hi):
+        p = cells[pi]
+        for a in range(len(cells)):
+            if a == pi:
+                continue
+            for b in range(a + 1, len(cells)):
+                if b == pi:
+                    continue
+                blocked_tok = "nan" if (a + b + pi) % 3 == 0 else 0.0
+                data = [[blocked_tok] * n for _ in range(n)]
+                data[cells[a][0]][cells[a][1]] = 1.0
+                data[cells[b][0]][cells[b][1]] = 2.0
+                step, yo, xo, yd, xd, res, fr = ENUM_COORDS[(a + 3 * b + 5 * pi) % len(ENUM_COORDS)]
+                yield {"sub": "astar", "kind": "snap_two", "surface": {"dtype": "float64", "data": data}, "barriers": [0],
+                       "y": {"start": yo, "step": step, "desc": yd, "n": n}, "x": {"start": xo, "step": step, "desc": xd, "n": n},
+                       "res": res, "s": list(p), "g": list(p), "s_off": [0, 0], "g_off": [0, 0], "conn": 8 if (a + b) % 2 else 4,
+                       "snap_start": True, "snap_goal": True, "enum": ["snap_two", n, pi, a, b]}
+
+
 def own_coord_cases(res_mode):
     """'A cell's own coordinates denote that cell' over every (step, offset, direction) axis class x axis length x cell index:
     obstacle-free surface, start = cell (i, j) named by its own coordinates (and, second variant, by a point 0.48 cell off-centre),
@@ -720,6 +761,12 @@ def shards(tier):
                         lambda ctx, h=h, w=w, lo=lo, hi=hi: drive_enum(
                             ctx, body_astar, enum_cases(h, w, lo, hi),
                             space="layouts(rank %d..%d) x (s,g) x conn x snap %dx%d" % (lo, hi, h, w), size=enum_size(h, w, lo, hi))))
+    n2, nb2 = (8, 8) if tier == "thorough" else (6, 3)
+    for bi in range(nb2):
+        lo, hi = bi * n2 * n2 // nb2, (bi + 1) * n2 * n2 // nb2
+        out.append(("snap_two_%dx%d#%d" % (n2, n2, bi), lambda ctx, lo=lo, hi=hi: drive_enum(
+            ctx, body_astar, snap_two_cases(n2, lo, hi), space="blocked %dx%d surface with two crossable cells x snapped cell index [%d,%d)" % (n2, n2, lo, hi),
+            size=(hi - lo) * (n2 * n2 - 1) * (n2 * n2 - 2) // 2)))
     out.append(("snap_diag", lambda ctx: drive_enum(ctx, body_astar, diag_cases(), space="only crossable cell in the opposite corner")))
     return out
 
